@@ -340,7 +340,23 @@ pub fn gen_random(seed: u64, idx: u64) -> Plan {
                 6 => gen_narrow(&mut r, nonce, steps, step_ms),
                 _ => gen_mp(&mut r, nonce, steps, step_ms),
             };
-            let bad = if r.chance(3, 5) { malform(&mut r, &mut e) } else { None };
+            let mut bad = if r.chance(3, 5) { malform(&mut r, &mut e) } else { None };
+            // A body that is a complete, well-typed value followed by broken
+            // chunk framing: it cannot be decoded either (the message never
+            // ends properly), whatever the prefix looks like.
+            let mut broken_chunking = false;
+            if bad.is_none()
+                && !is_h2
+                && matches!(e.op, "echo_typed" | "echo_form")
+                && e.body.as_ref().map(|b| !b.is_empty()).unwrap_or(false)
+                && r.chance(1, 8)
+            {
+                let n = e.body.as_ref().unwrap().len();
+                let sizes = if n > 1 && r.chance(1, 2) { vec![r.usize_in(1, n - 1)] } else { vec![] };
+                e.framing = BodyFraming::Chunked { sizes, ext: false, trailer: false };
+                broken_chunking = true;
+                bad = Some("valid value, then broken chunk framing".into());
+            }
             if is_h2 {
                 e.framing = BodyFraming::Length;
             }
@@ -354,7 +370,14 @@ pub fn gen_random(seed: u64, idx: u64) -> Plan {
                 nonce += 1;
                 continue;
             }
-            c.steps.push(Step::Send { data: Blob(e.h1_bytes()), completes: Some(j) });
+            let mut bytes = e.h1_bytes();
+            if broken_chunking {
+                // replace the last-chunk marker by something that is not one
+                assert!(bytes.ends_with(b"0\r\n\r\n"));
+                bytes.truncate(bytes.len() - 5);
+                bytes.extend_from_slice(*r.pick(&[&b"zz\r\n\r\n"[..], b"-1\r\n\r\n", b"\r\n\r\n", b"0x\r\n\r\n"]));
+            }
+            c.steps.push(Step::Send { data: Blob(bytes), completes: Some(j) });
             c.reqs.push(rp);
             pending += 1;
             if pending >= depth {
